@@ -32,11 +32,13 @@ pub struct Script {
     /// wait before sending anything
     pub stall: Duration,
     pub extra_headers: Vec<(String, String)>,
+    /// pause between successive write fragments (a trickling server)
+    pub gap: Duration,
 }
 
 impl Script {
     pub fn ok(body: Vec<u8>) -> Script {
-        Script { status: 200, framing: Framing::ContentLength, body, frags: vec![], cut_after: None, rst: false, stall: Duration::ZERO, extra_headers: vec![] }
+        Script { status: 200, framing: Framing::ContentLength, body, frags: vec![], cut_after: None, rst: false, stall: Duration::ZERO, extra_headers: vec![], gap: Duration::ZERO }
     }
 }
 
@@ -365,7 +367,9 @@ fn serve<S: Read + Write>(mut s: S, raw: Option<TcpStream>, conn: usize, handler
                 break;
             }
             pos += n;
-            if script.frags.len() > 1 {
+            if !script.gap.is_zero() && pos < all.len() {
+                std::thread::sleep(script.gap);
+            } else if script.frags.len() > 1 {
                 std::thread::yield_now();
             }
         }
